@@ -41,6 +41,7 @@ def check(prog, rep):
     rep.not_decided += ["the full SAX state machine of ForcefieldHandler beyond full-match and copy-all",
                         "user-supplied parameter/.names file pairs (arbitrary inputs)",
                         "whether a radius in a .DAT file is the 'right' one (the file is the oracle)"]
+    rep.guarded(rule_state_from_current_atoms, prog, rep)  # first: stands even if the table rules below cannot evaluate a state method
     rule_partition(prog, rep)
     rule_keys(prog, rep)
     rule_columns(prog, rep)
@@ -695,3 +696,51 @@ def rule_coverage(prog, rep, t, model):
         r.ok(f"cov|{ff}", f"{len(seen)} lookup names classified: {counts}")
     r.info["summary"] = summary
     r.info["partial_cells"] = partial
+
+
+def rule_state_from_current_atoms(prog, rep):
+    """set_state names the force-field residue from the atoms the residue has when it is called - repair and hydrogen addition run between
+    construction and naming.  Each nucleotide class is built on model records with and without the 2'-hydroxyl oxygen; then the oxygen is added
+    to (removed from) the one built without (with) it: residues with the same atoms must get the same name, whatever their history."""
+    from ..guards import Flow, Obj
+    from ..objinterp import ObjRunner
+    r = rep.rule("R9", "the state name follows the atoms present when set_state runs, not the atoms the residue was built from", floor=4)
+
+    def record(name, resname, k):
+        return Obj({"__class__": "ATOM", "serial": k, "name": name, "alt_loc": "", "res_name": resname, "chain_id": "A", "res_seq": 7, "ins_code": "",
+                    "x": 1.0 * k, "y": 2.0, "z": 3.0, "occupancy": 1.0, "temp_factor": 0.0, "seg_id": "", "element": name[0], "charge": "", "mol2charge": None})
+
+    base = ["P", "OP1", "OP2", "O5'", "C5'", "C4'", "O4'", "C3'", "O3'", "C2'", "C1'", "N9", "N1"]
+    for cls, resname in (("ADE", "A"), ("CYT", "C"), ("GUA", "G"), ("THY", "T"), ("URA", "U")):
+        ci = next(iter(prog.classes_by_name.get(cls, [])), None)
+        if ci is None or prog.find_method(ci, "set_state") is None:
+            continue
+        where = f"pdb2pqr/{ci.module.rel} ({cls}.set_state)"
+
+        def extra(runner, interp, call, args, kw):
+            if isinstance(call.func, ast.Attribute) and call.func.attr == "record_type" and not args:
+                recv = interp.ev(call.func.value)
+                if isinstance(recv, dict) and recv.get("__class__") in ("ATOM", "HETATM"):
+                    return recv["__class__"]
+            return NotImplemented
+
+        names = {}
+        try:
+            for label, start, change in (("built with O2'", True, None), ("built without O2'", False, None),
+                                          ("built without O2', O2' added since", False, "add"), ("built with O2', O2' removed since", True, "remove")):
+                atoms = base + (["O2'"] if start else [])
+                ref = Obj({"__class__": "DefinitionResidue", "name": resname, "altnames": {},
+                           "map": {n_: Obj({"__class__": "DefinitionAtom", "name": n_, "bonds": []}) for n_ in base + ["O2'"]}})
+                run = ObjRunner(prog, ci.module.rel, extra_hook=extra)
+                res = run.new(cls, [record(n_, resname, k) for k, n_ in enumerate(atoms, start=1)], ref)
+                if change == "add":
+                    run.call(res, "create_atom", "O2'", [0.0, 0.0, 0.0])
+                elif change == "remove":
+                    run.call(res, "remove_atom", "O2'")
+                run.call(res, "set_state")
+                names[label] = res.get("ffname")
+        except Flow as fl:
+            r.bad(f"history|{cls}", f"{cls}: construction / set_state stops with {fl.value} on the model records", where)
+            continue
+        ok = names["built with O2'"] == names["built without O2', O2' added since"] and names["built without O2'"] == names["built with O2', O2' removed since"]
+        r.add(f"history|{cls}", ok, f"{cls}: state names {names}" + ("" if ok else " - residues with the same atoms are named differently depending on how they were built"), where)
